@@ -159,7 +159,7 @@ MALFORMED = ["ts_equal", "ts_decreasing", "ts_strings", "ts_single_repeat", "y0_
              "missing_both", "ts_requires_grad", "dt_requires_grad", "rtol_requires_grad", "atol_requires_grad",
              "dt_min_requires_grad", "no_noise_type", "no_sde_type", "bad_noise_type", "bad_sde_type", "unknown_method",
              "g_prod_without_bm", "ts_collapse_in_dtype", "scalar_many_channels_bm", "names_missing_drift",
-             "names_missing_diffusion"]
+             "names_missing_diffusion", "fgprod_drift_mismatch", "fg_drift_mismatch"]
 
 
 def _malformed_cells():
@@ -465,6 +465,22 @@ def _run_malformed(case):
         if cls != "no_sde_type":
             b.sde_type = "banana" if cls == "bad_sde_type" else sde.sde_type
         sde = b
+    elif cls in ("fgprod_drift_mismatch", "fg_drift_mismatch"):
+        # the SDE is given through a fused interface only (f_and_g_prod, or f_and_g) and its drift has a wrong - but
+        # broadcastable - shape: (1, d), (batch, 1) or (d,)
+        class Fused(nn.Module):
+            noise_type, sde_type = sde.noise_type, sde.sde_type
+        p = Fused()
+        bad = [lambda f_: f_[:1], lambda f_: f_[:, :1], lambda f_: f_[0]][v % 3]
+        gp = lambda t, y, w: (base.g(t, y) * w) if base.noise_type == "diagonal" else \
+            torch.bmm(base.g(t, y), w.unsqueeze(-1)).squeeze(-1)                    # noqa: E731
+        if cls == "fgprod_drift_mismatch":
+            p.f_and_g_prod = lambda t, y, w: (bad(base.f(t, y)), gp(t, y, w))      # noqa: E731
+            kw.setdefault("method", "euler" if case["sde_type"] == "ito" else ["midpoint", "heun", "euler_heun"][v % 3])
+        else:
+            p.f_and_g = lambda t, y: (bad(base.f(t, y)), base.g(t, y))             # noqa: E731
+        sde = p
+        kw["bm"] = bm_of(batch, m)
     elif cls in ("names_missing_drift", "names_missing_diffusion"):
         # `names` designates a method the SDE does not have (a typo), while the SDE also has the standard-named f and g:
         # the designated drift / diffusion is missing, the standard one was not designated
